@@ -66,8 +66,8 @@ def rule_handshake_tables(ctx):
             atoms.append(Atom("peer", "cmp", m_peer, ["=", "!="]))
         W = Walker(ctx, f, atoms)
         oks = ok_returns(f)
-        ctx.ob(R, "%s/%s Ok sites" % (net, d), len(oks) >= 1, "%d Ok return site(s)" % len(oks), f.loc())
-        names, tab = W.table({"ok": oks})
+        names, tab, tails = W.table_ok({"ok": oks})
+        ctx.ob(R, "%s/%s Ok sites" % (net, d), len(oks) + len(tails) >= 1, "%d Ok return site(s), %d tail-call return(s)" % (len(oks), len(tails)), f.loc())
         bad = [k for k, v in tab.items() if "ok" in v and not (k[0] == "=" and k[1] == "=" and k[2] is True and (len(k) < 4 or k[3] == "="))]
         good = [k for k, v in tab.items() if "ok" in v]
         n += 1
